@@ -109,7 +109,12 @@ pub fn event(id: usize, c: &ConeSpec, s: &[f64], z: &[f64], ds: &[f64], dz: &[f6
             if let Some(b1) = bat(c, s, &zt, ds, dz, mu) {
                 if b1.dual_feasible && !b1.grad_dual.is_empty() {
                     put("conjugate_map", dist(&b1.grad_dual, &s.iter().map(|v| -v).collect::<Vec<_>>()), 1e-6 * ss);
-                } else { put("conjugate_map", f64::INFINITY, 0.0); }
+                    // the primal barrier is the Legendre conjugate of the dual barrier:  f(s) + f*(-g(s)) + nu = 0
+                    // (the value the cone reports for f(s), not only its derivative; margins as for the algebraic laws)
+                    let sm = observer::margin(c, s, false).max(1e-12);
+                    put("primal_barrier_is_conjugate", (b0.barrier_primal + b1.barrier_dual + degree).abs(),
+                        (1e-8 + 1e-12 / sm) * (b0.barrier_primal.abs() + b1.barrier_dual.abs() + degree));
+                } else { put("conjugate_map", f64::INFINITY, 0.0); put("primal_barrier_is_conjugate", f64::INFINITY, 0.0); }
             }
         }
         if three_d {
@@ -213,6 +218,12 @@ pub fn lattice_event(id: usize, c: &ConeSpec, ps: &[i64], q: i64, v: &[i64]) -> 
     }
 }
 
+pub fn exact_boundary_event(id: usize, c: &ConeSpec, v: &[f64], side: &str) -> Value {
+    let code = match bat(c, v, v, v, v, 1.0) { Some(b) => if side == "primal" { b.primal_feasible } else { b.dual_feasible }, None => true };
+    json!({"ev": "ExactBoundary", "id": id, "run": id, "cone": c.tag(), "cone_spec": serde_json::to_value(c).unwrap(),
+           "side": side, "code_says_interior": code, "v": v})
+}
+
 pub fn record(seed: u64, count: usize) -> (Vec<Value>, Value) {
     let mut rng = StdRng::seed_from_u64(seed ^ 0xc14);
     let mut out = vec![];
@@ -277,11 +288,41 @@ pub fn record(seed: u64, count: usize) -> (Vec<Value>, Value) {
             }
             family = "near_boundary_dual";
         }
+        if id % 16 == 10 && !matches!(c, ConeSpec::Exp) {
+            // the last block of s exactly zero (the branch the power cones take when |w| <= eps); interior as long as p > 0
+            let k = match &c { ConeSpec::GenPow(al, _) => al.len(), _ => 2 };
+            for i in k..n { s[i] = 0.0; }
+            family = "zero_tail";
+        }
         let a = if family == "central" { norm(&s) } else { a };
         let ds: Vec<f64> = (0..n).map(|_| gen::normal(&mut rng) * 0.3 * a).collect();
         let dz: Vec<f64> = (0..n).map(|_| gen::normal(&mut rng) * 0.3 * b).collect();
         *fam.entry(format!("{}:{}", c.tag(), family)).or_default() += 1;
         out.push(event(id, &c, &s, &z, &ds, &dz, family));
+    }
+    // points that lie on the boundary exactly in floating point (every intermediate of the predicates is exact there:
+    // a / a = 1, log 1 = 0, exp 0 = 1, 1^x = 1): an interior test must reject them
+    for j in 0..(count / 40).max(6) {
+        let a = 10f64.powf(gen::unif(&mut rng, -5.0, 5.0));
+        let al = (rng.gen_range(80..950) as f64) / 1024.0;
+        let k = rng.gen_range(2..=3);
+        let ga = gen::genpow_alpha(&mut rng, k);
+        let d2 = rng.gen_range(1..=3);
+        let sign = if rng.gen::<bool>() { 1.0 } else { -1.0 };
+        let mut gp = vec![1.0; k + d2]; for i in k..k + d2 { gp[i] = 0.0; } gp[k + rng.gen_range(0..d2)] = sign;
+        let mut gd: Vec<f64> = ga.clone(); gd.extend(vec![0.0; d2]); gd[k + rng.gen_range(0..d2)] = sign;
+        let pts: Vec<(ConeSpec, Vec<f64>, &str)> = vec![
+            (ConeSpec::Exp, vec![0.0, a, a], "primal"),                       // s3 = s2 exp(s1 / s2)
+            (ConeSpec::Exp, vec![-a, -a, a], "dual"),                         // z3 = -z1 exp(z2 / z1 - 1)
+            (ConeSpec::Pow(al), vec![1.0, 1.0, sign], "primal"),              // s1^a s2^(1-a) = |s3|
+            (ConeSpec::Pow(al), vec![al, 1.0 - al, sign], "dual"),            // (z1/a)^a (z2/(1-a))^(1-a) = |z3|
+            (ConeSpec::GenPow(ga.clone(), d2), gp.clone(), "primal"),
+            (ConeSpec::GenPow(ga.clone(), d2), gd.clone(), "dual"),
+        ];
+        for (c, v, side) in pts {
+            *fam.entry(format!("{}:exact_boundary", c.tag())).or_default() += 1;
+            out.push(exact_boundary_event(count + 10_000_000 + j, &c, &v, side));
+        }
     }
     let lat = lattice_events(count, &mut rng, count / 2);
     fam.insert("lattice_membership".into(), lat.len());
